@@ -46,10 +46,14 @@ From TV Require Import model.Tak model.Road model.Lit model.SelfPlay.
 Import ListNotations.
 Definition A := mkAns.
 Definition close52 (obs ex : Q) : bool := Qle_bool (Qabs (obs - ex)) (Qabs ex * (1 # 4503599627370496)).
-Definition sparse (row : list Q) : list (Z * Q) :=
-  filter (fun iq => negb (Qeq_bool (snd iq) 0)) (combine (zrange (zlen row)) row).
+Fixpoint sparse_from (i : Z) (row : list Q) : list (Z * Q) :=
+  match row with
+  | [] => []
+  | x :: t => if Qeq_bool x 0 then sparse_from (i + 1)%Z t else (i, x) :: sparse_from (i + 1)%Z t
+  end.
+Definition sparse (row : list Q) : list (Z * Q) := sparse_from 0%Z row.
 Definition zq_eqb (a b : Z * Q) : bool := (fst a =? fst b)%Z && Qeq_bool (snd a) (snd b).
-Definition obs := (list position * list (list mv) * list (list Q) * list Q * option color * list Z *
+Definition obs := (list position * list (list mv) * list (list Q) * list Q * option (option color) * list Z *
                    option (list (list (Z * Q))))%type.
 Definition view (c : Z * Q * Z * list answer * obs) :=
   let '(sz, thr, lim, s, _) := c in
@@ -63,7 +67,8 @@ Definition chk11 (c : Z * Q * Z * list answer * obs) : bool :=
   | Done tr _ _ =>
       list_eqb position_eqb (t_positions tr) ps && list_eqb (list_eqb mv_eqb) (t_moves tr) ms &&
       list_eqb (list_eqb Qeq_bool) (t_probs tr) prs && list_eqb close52 vs (t_values tr) &&
-      opt_eqb color_eqb (t_result tr) res && list_eqb Z.eqb (results tr) labs &&
+      match res with Some r => opt_eqb color_eqb (t_result tr) r | None => false end &&
+      list_eqb Z.eqb (results tr) labs &&
       opt_eqb (list_eqb (list_eqb zq_eqb)) (option_map (map sparse) (logits tr)) lg
   | Err _ => false
   end."""
@@ -339,8 +344,13 @@ def _play(size, thr, limit, engine, forced=None):
     """runs the real play_one_game; returns the record compared with the model"""
     from tak import self_play
     rec = Recorder(engine)
+    crash = None
     with _patched_multinomial(rec, forced):
-        log = self_play.play_one_game(_cfg(size, thr, limit), rec)
+        try:
+            log = self_play.play_one_game(_cfg(size, thr, limit), rec)
+        except Exception as e:  # noqa  (a legal engine must not make the loop raise)
+            crash = repr(e)
+            log = self_play.Transcript()
     answers = []
     for i, r in enumerate(rec.rows):
         answers.append({"cands": r["cands"], "probs": r["probs"], "value": r["value"], "sims": r["sims"],
@@ -354,12 +364,24 @@ def _play(size, thr, limit, engine, forced=None):
     except Exception:  # noqa  (IndexError on a transcript without positions)
         logits = None
     return {
-        "size": size, "thr": fr_of(thr), "limit": limit, "answers": answers, "nodes": [r["node"] for r in rec.rows],
+        "crash": crash, "size": size, "thr": fr_of(thr), "limit": limit, "answers": answers, "nodes": [r["node"] for r in rec.rows],
         "positions": list(log.positions), "moves": [list(ms) for ms in log.moves],
         "probs": [[fr_of(x) for x in pr.tolist()] for pr in log.probs],
         "values": [fr_of(v) for v in log.values], "result": log.result,
         "labels": [int(x) if float(x).is_integer() else 99 for x in log.results], "labels_raw": list(log.results), "logits": logits,
     }
+
+
+def _is_color(r):
+    import tak
+    return isinstance(r, tak.Color)
+
+
+def _c_result(r):
+    """Some (the colour or None) when the result is a colour or None; None for anything else (never matches)"""
+    if r is None or _is_color(r):
+        return f"(Some {takio.c_color(r)})"
+    return "None"
 
 
 def _case_term(g):
@@ -370,7 +392,7 @@ def _case_term(g):
     obs = (f"({clist([takio.c_pos(p) for p in g['positions']])}, "
            f"{clist([clist([takio.c_move(m) for m in ms]) for ms in g['moves']])}, "
            f"{clist([clist([cq(x) for x in pr]) for pr in g['probs']])}, "
-           f"{clist([cq(v) for v in g['values']])}, {takio.c_color(g['result'])}, "
+           f"{clist([cq(v) for v in g['values']])}, {_c_result(g['result'])}, "
            f"{core.czlist(g['labels'])}, {copt(lg)})")
     return f"({cz(g['size'])}, {cq(g['thr'])}, {cz(g['limit'])}, {ans}, {obs})"
 
@@ -384,7 +406,7 @@ def _scenario_json(g):
 
 def _observed_json(g):
     return {"n_positions": len(g["positions"]), "plies": [p.ply for p in g["positions"]],
-            "result": None if g["result"] is None else g["result"].name,
+            "result": None if g["result"] is None else getattr(g["result"], "name", repr(g["result"])),
             "labels": [float(x) for x in g["labels_raw"]],
             "values": [float(v) for v in g["values"]],
             "last_position": takio.j_pos(g["positions"][-1]) if g["positions"] else None}
@@ -397,8 +419,12 @@ def _oracle(g):
     """returns (ending class, [violated clauses]) using only tak's own move/winner"""
     import tak
     bad = []
+    if g.get("crash"):
+        return "crash", ["crash:play_one_game raised " + g["crash"]]
     ps, ans, n = g["positions"], g["answers"], len(g["positions"])
     thr, limit = g["thr"], g["limit"]
+    if not (g["result"] is None or _is_color(g["result"])):
+        bad.append("result:not-a-colour-or-None")
     if not (len(g["moves"]) == len(g["probs"]) == len(g["values"]) == n):
         bad.append("lists-aligned")
     init = tak.Position.from_config(tak.Config(size=g["size"]))
@@ -533,9 +559,11 @@ def _scripted_games(run, budget):
 
 
 def _free_games(run, count):
+    import torch
     rng = run.rng
     out = []
     for j in range(count):
+        torch.manual_seed(rng.randrange(1 << 30))
         n = rng.choice([3, 3, 4, 4, 5, 6])
         thr = rng.choice([0.5, 0.95, 1.0])
         pool = [0.0, 0.25, -0.25, _nextbelow(thr), -_nextbelow(thr)] * 4 + [thr, -thr, 1.0, -1.0]
@@ -595,15 +623,6 @@ def _digest(g):
     return hashlib.sha256(s.encode()).hexdigest()
 
 
-def _run_cases(run, name, games, shard):
-    cs = core.Cases(ID, name, HEADER, CTYPE, "chk11", show="view", shard=shard)
-    for meta, g in games:
-        cs.add(_case_term(g), meta)
-    failing, shard_fail, nshards = cs.run()
-    run.oblige(f"correspondence:{name} ({nshards} shards)", not shard_fail, str(shard_fail)[:1500])
-    return cs, failing
-
-
 def _report(run, cs, meta, g, cls, clauses, coq_disagrees):
     view = None
     if coq_disagrees:
@@ -626,12 +645,30 @@ def correspondence(run):
     n_scripted = 300 if run.quick else 5000
     n_free = 40 if run.quick else 600
     n_mcts = 40 if run.quick else 500
-    parts = [("scripted", _scripted_games(run, n_scripted), 12),
-             ("free", _free_games(run, n_free), 8),
-             ("mcts", _mcts_games(run, n_mcts), 4)]
-    for name, games, shard in parts:
-        cs, failing = _run_cases(run, name, games, shard)
-        failing_ids = {id(m) for m in failing}
+    import time
+    t0 = time.time()
+    parts = [("scripted", _scripted_games(run, n_scripted)),
+             ("free", _free_games(run, n_free)),
+             ("mcts", _mcts_games(run, n_mcts))]
+    allgames = [(meta, g) for _, games in parts for (meta, g) in games]
+    # heavy (long / many-candidate) games are spread over the shards
+    order = sorted(range(len(allgames)), key=lambda i: -sum(len(a["cands"]) + 3 for a in allgames[i][1]["answers"]))
+    nsh = max(1, (len(allgames) + 5) // 6)
+    shards = [[] for _ in range(nsh)]
+    for r, i in enumerate(order):
+        shards[r % nsh].append(allgames[i])
+    width = max(len(s) for s in shards)
+    cs = core.Cases(ID, "games", HEADER, CTYPE, "chk11", show="view", shard=width)
+    filler = allgames[order[-1]]
+    for s in shards:
+        for (meta, g) in s + [filler] * (width - len(s)):
+            cs.add(_case_term(g), meta)
+    t1 = time.time()
+    failing, shard_fail, nshards = cs.run()
+    core.log(f"[C11] games played in {t1 - t0:.1f}s, {nshards} shards evaluated in Coq in {time.time() - t1:.1f}s")
+    run.oblige(f"correspondence:games ({nshards} shards)", not shard_fail, str(shard_fail)[:1500])
+    failing_ids = {id(m) for m in failing}
+    for name, games in parts:
         dist, seen, nontrivial = {}, set(), 0
         samples = []
         for meta, g in games:
